@@ -673,3 +673,124 @@ Print Assumptions C01_tm_migrate_preserves.
 Print Assumptions C01_tm_migrate_changes_nothing.
 Print Assumptions C01_tm_governance_preserves.
 Print Assumptions C01_tm_every_reachable_state_with_migrations.
+
+(* =====================================================================================
+   Part 4: holders burn and transfer tokens on the COLLECTION between minter calls (cw721
+   Burn / TransferNft; no minter handler runs).  The world is (minter state, tokens the
+   collection holds now); `wissued` is every (id, owner) the minter EVER issued during the
+   history — a token its holder burned stays issued.  For every family: the minter's books
+   after such a history are those of its own calls alone, and the ids it issues do not
+   depend on what the collection holds (in particular not on its live token count).
+   Statements only.
+   ===================================================================================== *)
+From LP Require Import Holder HolderProofs C01HolderProofs C01HolderTmProofs.
+
+(* holder operations leave every minter state alone, and no world step's minter side looks
+   at the collection (generic in the minter model) *)
+Theorem C01_holder_ops_do_not_touch_the_minter :
+  forall (St Call : Type) (apply : St -> Call -> St) (emit : St -> Call -> list (N * addr)) w h,
+  fst (wapply St Call apply emit w (WHolder h)) = fst w.
+Proof. exact holder_frame. Qed.
+
+Theorem C01_minter_side_ignores_the_collection :
+  forall (St Call : Type) (apply : St -> Call -> St) (emit : St -> Call -> list (N * addr)) s c c' x,
+  fst (wapply St Call apply emit (s, c) x) = fst (wapply St Call apply emit (s, c') x).
+Proof. exact wapply_ignores_collection. Qed.
+
+(* whatever the collection holds at the end was issued by the minter (or was there before) *)
+Theorem C01_collection_holds_only_issued_tokens :
+  forall (St Call : Type) (apply : St -> Call -> St) (emit : St -> Call -> list (N * addr)) xs s c x,
+  In x (map fst (snd (wrun St Call apply emit (s, c) xs))) ->
+  In x (map fst c) \/ In x (map fst (wissued St Call apply emit s xs)).
+Proof. exact live_tokens_were_issued. Qed.
+
+(* ---- vending minters ---- *)
+Theorem C01_v_books_ignore_holder_ops : forall vr xs s c,
+  fst (wrun vstate call (apply_call vr) (v_emit vr) (s, c) xs) = run vr s (minter_calls call xs).
+Proof. exact v_world_minter_state. Qed.
+
+(* every id issued in such a history is in 1..=n, was never issued before in it, and was not
+   issued before it either: no repeat even after the token was burned on the collection *)
+Theorem C01_v_issued_ids_fresh_despite_holder_burns : forall n vr xs s,
+  InvV n s ->
+  NoDup (map fst (wissued vstate call (apply_call vr) (v_emit vr) s xs)) /\
+  (forall t, In t (map fst (wissued vstate call (apply_call vr) (v_emit vr) s xs)) -> 1 <= t <= n /\ ~ In t (s_minted s)).
+Proof. exact v_world_issued_ids_fresh. Qed.
+
+(* an id ever issued is sold for good: MintFor it fails (burned on the collection or not) *)
+Theorem C01_v_mint_for_issued_id_fails : forall n vr s e fp wv t rok r,
+  InvV n s -> In t (s_minted s) -> MinterVending.step vr s e fp wv (MinterVending.OMintFor t rok r) = Err.
+Proof. exact mint_for_issued_fails. Qed.
+
+(* ---- open-edition minters ---- *)
+Theorem C01_oe_books_ignore_holder_ops : forall vr xs s c,
+  fst (wrun ostate ocall (o_apply vr) (o_emit vr) (s, c) xs) = orun vr s (minter_calls ocall xs).
+Proof. exact o_world_minter_state. Qed.
+
+Theorem C01_oe_ids_are_1_2_3_despite_holder_burns : forall vr xs s,
+  o_token_index s = 0 ->
+  map fst (wissued ostate ocall (o_apply vr) (o_emit vr) s xs)
+  = map N.of_nat (seq 1 (osuccesses vr s (minter_calls ocall xs))).
+Proof. exact o_world_ids_are_1_2_3. Qed.
+
+(* the next id is index + 1 whatever the collection holds *)
+Theorem C01_oe_next_id_ignores_collection : forall vr s c k t ow,
+  In (t, ow) (o_emit vr s k) ->
+  t = o_token_index s + 1 /\
+  wapply ostate ocall (o_apply vr) (o_emit vr) (s, c) (WMinter k) = (o_apply vr s k, c ++ [(t, ow)]).
+Proof. exact o_next_id_ignores_collection. Qed.
+
+(* ---- base minter ---- *)
+Theorem C01_base_books_ignore_holder_ops : forall xs s c,
+  fst (wrun bstate bcall b_apply b_emit (s, c) xs) = brun s (minter_calls bcall xs).
+Proof. exact b_world_minter_state. Qed.
+
+Theorem C01_base_ids_are_1_2_3_despite_holder_burns : forall xs s,
+  b_token_index s = 0 ->
+  map fst (wissued bstate bcall b_apply b_emit s xs) = map N.of_nat (seq 1 (bsuccesses s (minter_calls bcall xs))).
+Proof. exact b_world_ids_are_1_2_3. Qed.
+
+Theorem C01_base_next_id_ignores_collection : forall s c k t ow,
+  In (t, ow) (b_emit s k) ->
+  t = b_token_index s + 1 /\
+  wapply bstate bcall b_apply b_emit (s, c) (WMinter k) = (b_apply s k, c ++ [(t, ow)]).
+Proof. exact b_next_id_ignores_collection. Qed.
+
+(* ---- token-merge minter: its state and supply ghost after a history with holder operations
+   in between are those of its own calls, so the supply invariant of Part 3 still holds ---- *)
+Theorem C01_tm_books_ignore_holder_ops : forall minter xs s c,
+  fst (wrun (tm_state * sghost) (N * tm_op) (sstep minter) (tm_emit minter) (s, c) xs)
+  = srun minter (minter_calls (N * tm_op) xs) s.
+Proof. exact tm_world_minter_state. Qed.
+
+Theorem C01_tm_invariant_despite_holder_ops : forall n minter xs s c,
+  InvT n s -> InvT n (fst (wrun (tm_state * sghost) (N * tm_op) (sstep minter) (tm_emit minter) (s, c) xs)).
+Proof. exact tm_world_invariant. Qed.
+
+(* ---- non-vacuity: mint 1,2,3 on the base minter, the holder burns 3, the next mint is 4
+   and the collection holds 1,2,4; the holder burns 1, the next is 5 ---- *)
+Example C01_base_ex_burn_then_mint :
+  let s0 := mkBS 1000 0 [] None in
+  let m t := WMinter (mkBCall (mkEnv t 10 [mkCoin 0 500] 20) (Some 10) 5000 (BMint true)) in
+  let xs := [ m 100; m 101; m 102; WHolder (HBurn 11 3); WHolder (HBurn 10 3); m 103;
+              WHolder (HBurn 10 1); m 104 ] in
+  (map fst (wissued bstate bcall b_apply b_emit s0 xs),
+   map fst (snd (wrun bstate bcall b_apply b_emit (s0, []) xs)),
+   b_token_index (fst (wrun bstate bcall b_apply b_emit (s0, []) xs)))
+  = ([1; 2; 3; 4; 5], [2; 4; 5], 5).
+Proof. vm_compute. reflexivity. Qed.
+
+Print Assumptions C01_holder_ops_do_not_touch_the_minter.
+Print Assumptions C01_minter_side_ignores_the_collection.
+Print Assumptions C01_collection_holds_only_issued_tokens.
+Print Assumptions C01_v_books_ignore_holder_ops.
+Print Assumptions C01_v_issued_ids_fresh_despite_holder_burns.
+Print Assumptions C01_v_mint_for_issued_id_fails.
+Print Assumptions C01_oe_books_ignore_holder_ops.
+Print Assumptions C01_oe_ids_are_1_2_3_despite_holder_burns.
+Print Assumptions C01_oe_next_id_ignores_collection.
+Print Assumptions C01_base_books_ignore_holder_ops.
+Print Assumptions C01_base_ids_are_1_2_3_despite_holder_burns.
+Print Assumptions C01_base_next_id_ignores_collection.
+Print Assumptions C01_tm_books_ignore_holder_ops.
+Print Assumptions C01_tm_invariant_despite_holder_ops.
